@@ -129,7 +129,13 @@ def gen_pattern(rng, pattern=None, force_dyadic=False, nmax=61):
     as_time = bool(rng.random() < 0.5)
     # RVData(t_ref=False): "disable subtracting the reference time" - phases are then relative to BMJD 0
     disabled = tref is None and bool(rng.random() < 0.15)
-    return dict(pattern=pattern, t=[float(v) for v in t], P=float(P), unit=unit, n_bins=nb,
+    # single-precision inputs (a FITS 'E' column of epochs; prior.sample(dtype=float32) periods): the declared numbers are the
+    # float32 values themselves, the diagnostics are still those of these numbers
+    narrow = (not as_time) and bool(rng.random() < 0.25)
+    if narrow:
+        t = np.asarray(np.asarray(t, dtype=np.float32), dtype=float)
+        P = float(np.float32(P))
+    return dict(pattern=pattern, t=[float(v) for v in t], P=float(P), unit=unit, n_bins=nb, narrow=narrow,
                 t_ref=0.0 if disabled else (None if tref is None else float(tref)), t_ref_disabled=disabled, as_time=as_time)
 
 
@@ -223,6 +229,8 @@ def build(case, t=None):
     n = len(t)
     rv = (np.arange(n) * 1.25 - 3.0) * u.km / u.s
     err = (0.5 + 0.01 * np.arange(n)) * u.km / u.s
+    if case.get("narrow"):
+        t = t.astype(np.float32)
     tt = Time(t, format="mjd", scale="tcb") if case["as_time"] else t
     kw = {}
     if case.get("t_ref_disabled"):
@@ -231,7 +239,7 @@ def build(case, t=None):
         kw["t_ref"] = Time(case["t_ref"], format="mjd", scale="tcb")
     data = RVData(tt, rv=rv, rv_err=err, **kw)
     s = JokerSamples()
-    s["P"] = np.array([case["P"]]) * u.Unit(case["unit"])
+    s["P"] = np.array([case["P"]], dtype=np.float32 if case.get("narrow") else float) * u.Unit(case["unit"])
     return data, s
 
 
@@ -290,6 +298,8 @@ def check_pattern(ctx, g, case, tagx=""):
     ctx.count(f"unit:{case['unit']}")
     if case.get("t_ref_disabled"):
         ctx.count("t_ref disabled (t_ref=False)")
+        if case.get("narrow"):
+            ctx.count("t_ref disabled and float32 epochs / period")
     if case["t_ref"] is not None:
         ctx.count("explicit_t_ref")
         if any(q < 0 for q in [(t - ex["tref"]) for t in ex["ts"]]):
@@ -605,6 +615,7 @@ def post(ctx):
     ctx.require("phase exactly on a bin edge", c["coverage:phase_exactly_on_edge"], 15)
     ctx.require("explicit reference epoch", c["explicit_t_ref"], 30)
     ctx.require("data without a reference epoch (t_ref=False)", c["t_ref disabled (t_ref=False)"], 10)
+    ctx.require("... with float32 epochs and period", c["t_ref disabled and float32 epochs / period"], 2)
     ctx.require("observations before the reference epoch (negative dt)", c["negative_dt"], 20)
     for u_ in ("day", "yr", "hour", "min"):
         ctx.require(f"period unit {u_}", c[f"unit:{u_}"], 15)
